@@ -190,7 +190,8 @@ def builtDistance (m : Metric) (h : Host) (ph pv qh qv : List Nat) : Nat :=
   | .bqEuclidean => F32.ofNat (BQ.hamming pv qv * 4)
   | .bqManhattan => F32.ofNat (BQ.hamming pv qv * 2)
   | .bqCosine =>
-    let pnqn := F32.mul (m.hdrNorm ph) (m.hdrNorm qh)
+    -- the product of the two norms, exactly: sqrt (len · len), `len` the padded dimension
+    let pnqn := F32.sqrt (F32.mul (F32.ofNat (Generated.quantizedWordBits * pv.length)) (F32.ofNat (Generated.quantizedWordBits * qv.length)))
     let pq := BQ.dot pv qv
     if !(F32.eq pnqn F32.zero) then
       F32.div (F32.sub F32.one (F32.div pq pnqn)) F32.two
